@@ -607,7 +607,36 @@ def m_str_split_once(it, name, a):
 
 @model(exact=('core::str::<impl str>::replace', 'str::<impl str>::replace'))
 def m_str_replace(it, name, a):
-    return conc(S(it, a[0])).replace(_pat(it, a[1]), conc(S(it, a[2])))
+    hay, rep = S(it, a[0]), S(it, a[2])
+    pat = _pat(it, a[1])
+    if isinstance(hay, str) and isinstance(rep, str) and isinstance(pat, str):
+        return hay.replace(pat, rep)
+    # symbolic text: left-to-right, non-overlapping matches of a concrete needle, each candidate position decided by the solver
+    if not isinstance(pat, str) or pat == '':
+        raise Unsupported('str::replace with a symbolic or empty needle on symbolic text')
+    cs = chars_of(hay)
+    need = [ord(c) for c in pat]
+    out = []
+    i = 0
+    while i < len(cs):
+        hit = False
+        if i + len(need) <= len(cs):
+            hit = True
+            for p_, q_ in zip(cs[i:i + len(need)], need):
+                if isinstance(p_, int):
+                    if p_ != q_:
+                        hit = False
+                        break
+                elif not it.decide(it.eq(p_, q_)):
+                    hit = False
+                    break
+        if hit:
+            out.extend(chars_of(rep))
+            i += len(need)
+        else:
+            out.append(cs[i])
+            i += 1
+    return normalize(out)
 
 
 @model(exact=('core::str::<impl str>::repeat', 'str::<impl str>::repeat'))
